@@ -310,17 +310,26 @@ class Inliner:
 
     def bind(self, h, call, skip, selfexpr):
         a = h.args
-        if a.vararg or a.kwarg or any(isinstance(x, ast.Starred) for x in call.args) or any(k.arg is None for k in call.keywords):
+        if a.kwarg or any(isinstance(x, ast.Starred) for x in call.args) or any(k.arg is None for k in call.keywords):
             return None
         params = [x.arg for x in a.posonlyargs + a.args]
         m = {}
         if skip:
             m[params[0]] = selfexpr
             params = params[1:]
-        if len(call.args) > len(params):
+        if len(call.args) > len(params) and not a.vararg:
             return None
         for p, v in zip(params, call.args):
             m[p] = v
+        if a.vararg:
+            # *rest receives the surplus positional arguments as a tuple (names and constants only: the tuple display is
+            # then as good as the tuple object the call would build)
+            rest = list(call.args[len(params):])
+            if not all(isinstance(x, (ast.Name, ast.Constant)) for x in rest) or a.vararg.arg in m:
+                return None
+            if any(isinstance(n, ast.Name) and n.id == a.vararg.arg and isinstance(n.ctx, ast.Store) for n in ast.walk(h)):
+                return None
+            m[a.vararg.arg] = ast.Tuple(elts=rest, ctx=ast.Load())
         for k in call.keywords:
             if k.arg in m or k.arg not in params + [x.arg for x in a.kwonlyargs]:
                 return None
@@ -497,6 +506,38 @@ class Inliner:
 
 
 # ---------------------------------------------------------------------------------------------------- C3..C5
+def _simple_tuple(e):
+    return isinstance(e, ast.Tuple) and all(isinstance(x, (ast.Name, ast.Constant)) or _simple_tuple(x) for x in e.elts)
+
+
+def _project_tuple(n):
+    """(a, b, c)[0] -> a and (a, b, c)[1:] -> (b, c) for a display of names / constants and literal bounds."""
+    if not (isinstance(n, ast.Subscript) and isinstance(n.ctx, ast.Load) and _simple_tuple(n.value)):
+        return n
+    elts = n.value.elts
+
+    def lit(b):
+        if b is None:
+            return True, None
+        if isinstance(b, ast.Constant) and isinstance(b.value, int) and not isinstance(b.value, bool):
+            return True, b.value
+        if isinstance(b, ast.UnaryOp) and isinstance(b.op, ast.USub) and isinstance(b.operand, ast.Constant) \
+                and isinstance(b.operand.value, int) and not isinstance(b.operand.value, bool):
+            return True, -b.operand.value
+        return False, None
+    if isinstance(n.slice, ast.Slice):
+        if n.slice.step is not None:
+            return n
+        (oka, a), (okb, b) = lit(n.slice.lower), lit(n.slice.upper)
+        if oka and okb:
+            return ast.copy_location(ast.Tuple(elts=[copy.deepcopy(x) for x in elts[a:b]], ctx=ast.Load()), n)
+        return n
+    ok, i = lit(n.slice)
+    if ok and i is not None and -len(elts) <= i < len(elts):
+        return ast.copy_location(copy.deepcopy(elts[i]), n)
+    return n
+
+
 class _Idioms(ast.NodeTransformer):
     def visit_Assign(self, n):
         self.generic_visit(n)
@@ -605,6 +646,9 @@ class _Idioms(ast.NodeTransformer):
 
     def visit_Subscript(self, n):
         self.generic_visit(n)
+        m = _project_tuple(n)
+        if m is not n:
+            return m
         # list(X)[0] -> next(iter(X))   (first element in iteration order)
         if isinstance(n.ctx, ast.Load) and isinstance(n.slice, ast.Constant) and n.slice.value == 0 and isinstance(n.value, ast.Call) \
                 and isinstance(n.value.func, ast.Name) and n.value.func.id in ("list", "tuple") and len(n.value.args) == 1 and not n.value.keywords:
@@ -614,6 +658,29 @@ class _Idioms(ast.NodeTransformer):
 
     def visit_Call(self, n):
         self.generic_visit(n)
+        # tuple(e(x) for x in (a, b, c)) -> (e(a), e(b), e(c)); the same for list(...)
+        if isinstance(n.func, ast.Name) and n.func.id in ("tuple", "list") and len(n.args) == 1 and not n.keywords \
+                and isinstance(n.args[0], (ast.GeneratorExp, ast.ListComp)) and len(n.args[0].generators) == 1:
+            g = n.args[0].generators[0]
+            if not g.ifs and not g.is_async and isinstance(g.target, ast.Name) and _simple_tuple(g.iter) \
+                    and all(isinstance(x, (ast.Name, ast.Constant)) for x in g.iter.elts) \
+                    and not any(isinstance(z, (ast.Lambda, ast.GeneratorExp, ast.ListComp, ast.SetComp, ast.DictComp, ast.NamedExpr))
+                                for z in ast.walk(n.args[0].elt)):
+                elts = [_Subst({g.target.id: x}).visit(copy.deepcopy(n.args[0].elt)) for x in g.iter.elts]
+                cls_ = ast.Tuple if n.func.id == "tuple" else ast.List
+                return ast.copy_location(cls_(elts=elts, ctx=ast.Load()), n)
+        # f(a, **dict(k=v, ...)) -> f(a, k=v, ...)
+        if any(k.arg is None and isinstance(k.value, ast.Call) and isinstance(k.value.func, ast.Name) and k.value.func.id == "dict"
+               and not k.value.args and all(z.arg is not None for z in k.value.keywords) for k in n.keywords):
+            new = []
+            for k in n.keywords:
+                if k.arg is None and isinstance(k.value, ast.Call) and isinstance(k.value.func, ast.Name) and k.value.func.id == "dict" \
+                        and not k.value.args and all(z.arg is not None for z in k.value.keywords):
+                    new.extend(k.value.keywords)
+                else:
+                    new.append(k)
+            if len({z.arg for z in new if z.arg is not None}) == len([z for z in new if z.arg is not None]):
+                n.keywords = new
         # len([e for ...]) -> sum(1 for ...)   (e pure: it is not evaluated in the second form)
         if isinstance(n.func, ast.Name) and n.func.id == "len" and len(n.args) == 1 and isinstance(n.args[0], ast.ListComp) \
                 and is_pure(n.args[0].elt):
@@ -695,6 +762,103 @@ def signatures_of(trees):
             ps = ps[skip:]
             if st.name not in out:
                 out[st.name] = (ps, d)
+    out["\0pure"] = argument_pure_functions(trees)
+    out["\0shallow"] = shallow_methods(trees)
+    return out
+
+
+def shallow_methods(trees):
+    """Names of methods of package classes that change nothing but the receiver's own structures: every store is rooted at
+    `self` or a local, every call is harmless, a known container mutator on something rooted at `self`, or another such
+    method of `self` (fixpoint).  `X.update_total_weight()` is then an effect on X alone - not on the nodes X holds.  A name
+    counts only if every package class that defines it agrees."""
+    from .flow import MUTATORS
+    classes = [st for t in trees.values() for st in t.body if isinstance(st, ast.ClassDef)]
+    good = {}
+    for c in classes:
+        ms = {b.name: b for b in c.body if isinstance(b, ast.FunctionDef) and not b.decorator_list
+              and b.args.args and b.args.args[0].arg == "self"}
+        ok = set(ms)
+        changed = True
+
+        def root(e):
+            while isinstance(e, (ast.Attribute, ast.Subscript, ast.Starred)):
+                e = e.value
+            return e.id if isinstance(e, ast.Name) else None
+        while changed:
+            changed = False
+            for nm in sorted(ok):
+                b = ms[nm]
+                params = {a.arg for a in b.args.posonlyargs + b.args.args + b.args.kwonlyargs} - {"self"}
+                fine = True
+                for n in ast.walk(b):
+                    if isinstance(n, (ast.Global, ast.Nonlocal, ast.Yield, ast.YieldFrom, ast.Lambda)) or (isinstance(n, ast.FunctionDef) and n is not b):
+                        fine = False
+                    elif isinstance(n, (ast.Assign, ast.AugAssign, ast.AnnAssign, ast.Delete, ast.For)):
+                        tg = n.targets if isinstance(n, (ast.Assign, ast.Delete)) else [n.target]
+                        for t_ in tg:
+                            for x in (t_.elts if isinstance(t_, (ast.Tuple, ast.List)) else [t_]):
+                                if isinstance(x, ast.Name):
+                                    continue
+                                if root(x) != "self":
+                                    fine = False
+                    elif isinstance(n, ast.Call):
+                        ch = _chain(n.func) or ""
+                        meth = n.func.attr if isinstance(n.func, ast.Attribute) else None
+                        if meth is not None and isinstance(n.func.value, ast.Name) and n.func.value.id == "self" and meth in ms:
+                            if meth not in ok:
+                                fine = False
+                            continue
+                        if meth is not None and meth in MUTATORS:
+                            if root(n.func.value) != "self":
+                                fine = False
+                            continue
+                        harmless = ch in PURE_FUNCS or ch in IMMUTABLE_FUNCS or (ch.startswith(PURE_PREFIX) and not ch.startswith(IMPURE_PREFIX)) \
+                            or ch.startswith(IMPURE_PREFIX) or (meth is not None and meth in PURE_METHODS | IMMUTABLE_METHODS | {"format"}) \
+                            or ch in ("EoN.EoNError", "EoNError", "Exception", "TypeError", "ValueError", "print", "KeyError", "IndexError")
+                        if not harmless:
+                            fine = False
+                if not fine:
+                    ok.discard(nm)
+                    changed = True
+        for nm in ms:
+            good.setdefault(nm, []).append(nm in ok)
+    return {nm for nm, v in good.items() if all(v) and not nm.startswith("__")}
+
+
+def argument_pure_functions(trees):
+    """Module-level functions of the package whose CALL changes nothing the caller can see: their own statements (the
+    bodies of nested functions and lambdas, which a call only creates, left out) bind local names and call harmless
+    functions only.  EoN._get_rate_functions_ is the instance: it returns two closures over its arguments."""
+    out = set()
+    saved, SIGNATURES[0] = SIGNATURES[0], {}       # the inference itself knows no pure package function
+    try:
+        _argument_pure(trees, out)
+    finally:
+        SIGNATURES[0] = saved
+    return out
+
+
+def _argument_pure(trees, out):
+    for t in trees.values():
+        for st in t.body:
+            if not (isinstance(st, ast.FunctionDef) and not st.decorator_list):
+                continue
+            f = copy.deepcopy(st)
+            for n in ast.walk(f):
+                if isinstance(n, ast.FunctionDef) and n is not f:
+                    n.body = [ast.Pass()]
+                    n.decorator_list = []
+                elif isinstance(n, ast.Lambda):
+                    n.body = ast.Constant(None)
+            if any(isinstance(n, (ast.Global, ast.Nonlocal, ast.Yield, ast.YieldFrom, ast.Await, ast.With, ast.Delete, ast.NamedExpr,
+                                  ast.ListComp, ast.SetComp, ast.DictComp, ast.GeneratorExp)) for n in ast.walk(f)):
+                continue
+            if any(isinstance(a.annotation, ast.AST) for a in f.args.args if a.annotation is not None):
+                continue
+            defaults_ok = all(isinstance(d, ast.Constant) for d in list(f.args.defaults) + [k for k in f.args.kw_defaults if k is not None])
+            if defaults_ok and all(kind == "bind" for kind, pay in _mutations(f)):
+                out.add(st.name)
     return out
 
 
@@ -750,6 +914,9 @@ def _boolish(e):
 
 def _truth(e):
     """Canonical spelling of an expression used as a truth value."""
+    if isinstance(e, ast.Call) and isinstance(e.func, ast.Name) and e.func.id == "bool" and len(e.args) == 1 and not e.keywords \
+            and not isinstance(e.args[0], ast.Starred):
+        return _truth(e.args[0])
     if isinstance(e, ast.BoolOp):
         e.values = [_truth(v) for v in e.values]
         return e
@@ -1021,6 +1188,17 @@ def _hoist_common(scope):
         for owner, fld in _blocks_of(scope):
             body = getattr(owner, fld)
             for i, st in enumerate(body):
+                if isinstance(st, ast.If) and st.body and not st.orelse and is_pure(st.test) and exits(st.body) and len(st.body) > 1 \
+                        and i + 1 < len(body):
+                    # the same with the else-arm already flattened: `if c: S; A(exits)` followed by `S; B`
+                    a, b = st.body[0], body[i + 1]
+                    if isinstance(a, (ast.Assign, ast.AugAssign, ast.Expr)) and ast.dump(a) == ast.dump(b) \
+                            and not _invalidates(_mutations(a), st.test, "?"):
+                        st.body.pop(0)
+                        body.pop(i + 1)
+                        body.insert(i, a)
+                        changed = again = True
+                        break
                 if not (isinstance(st, ast.If) and st.body and st.orelse and is_pure(st.test)):
                     continue
                 a, b = st.body[0], st.orelse[0]
@@ -1128,7 +1306,9 @@ def _stores(node):
         if isinstance(n, ast.Call):
             ch = _chain(n.func) or ""
             meth = n.func.attr if isinstance(n.func, ast.Attribute) else None
-            harmless = ch in PURE_FUNCS or (ch.startswith(PURE_PREFIX) and not ch.startswith(IMPURE_PREFIX)) or \
+            pure_pkg = SIGNATURES[0].get("\0pure", ()) if isinstance(SIGNATURES[0], dict) else ()
+            harmless = (ch in pure_pkg or (ch.startswith("EoN.") and ch[4:] in pure_pkg)) or \
+                ch in PURE_FUNCS or (ch.startswith(PURE_PREFIX) and not ch.startswith(IMPURE_PREFIX)) or \
                 ch.startswith(IMPURE_PREFIX) or \
                 (meth is not None and meth in PURE_METHODS | {"add", "append", "choose_random", "format", "EoNError"}) or \
                 ch in ("EoN.EoNError", "EoNError", "Exception", "TypeError", "ValueError", "print")
@@ -1244,7 +1424,9 @@ def _mutations(node):
         elif isinstance(n, ast.Call):
             ch = _chain(n.func) or ""
             meth = n.func.attr if isinstance(n.func, ast.Attribute) else None
-            if meth is not None and meth in MUTATORS and ch.split(".")[0] not in ("heapq", "random", "np", "nx", "numpy"):
+            shallow_pkg = SIGNATURES[0].get("\0shallow", ()) if isinstance(SIGNATURES[0], dict) else ()
+            if meth is not None and (meth in MUTATORS or (meth in shallow_pkg and meth not in PURE_METHODS | {"choose_random", "format"})) \
+                    and ch.split(".")[0] not in ("heapq", "random", "np", "nx", "numpy"):
                 p = _path(n.func.value)
                 if p is None:
                     b = n.func.value
@@ -1254,7 +1436,9 @@ def _mutations(node):
                 else:
                     out.append(("call", p))
                 continue
-            harmless = ch in PURE_FUNCS or (ch.startswith(PURE_PREFIX) and not ch.startswith(IMPURE_PREFIX)) or \
+            pure_pkg = SIGNATURES[0].get("\0pure", ()) if isinstance(SIGNATURES[0], dict) else ()
+            harmless = (ch in pure_pkg or (ch.startswith("EoN.") and ch[4:] in pure_pkg)) or \
+                ch in PURE_FUNCS or (ch.startswith(PURE_PREFIX) and not ch.startswith(IMPURE_PREFIX)) or \
                 ch.startswith(IMPURE_PREFIX) or (meth is not None and meth in PURE_METHODS | {"choose_random", "format"}) or \
                 ch in ("EoN.EoNError", "EoNError", "Exception", "TypeError", "ValueError", "print")
             if not harmless:
@@ -1271,6 +1455,7 @@ def _mutations(node):
     return out
 
 
+_NONLOCAL = [False]   # the function in work declares nonlocal / global names
 _ALIAS = [{}]      # name -> frozenset of local names that may denote (part of) the same object, for the function in work
 
 
@@ -1290,6 +1475,13 @@ def alias_classes(fn):
         if a != b:
             parent[a] = b
 
+    held = []
+
+    def hold(cs, xs):
+        for c in cs:
+            for x in xs:
+                held.append((c, x))
+
     def roots(e):
         if isinstance(e, ast.Name):
             return [e.id]
@@ -1306,6 +1498,17 @@ def alias_classes(fn):
         if isinstance(e, ast.Call) and _chain(e.func) in ("iter", "next", "reversed", "enumerate", "zip", "sorted", "list", "tuple", "max", "min"):
             return [r for a in e.args for r in roots(a)]       # elements are shared
         return []
+    def part_of(e):
+        """e denotes something reached THROUGH its roots (an element, an attribute), never a root itself"""
+        if isinstance(e, (ast.Attribute, ast.Subscript)):
+            return True
+        if isinstance(e, ast.Call):
+            return True
+        if isinstance(e, ast.IfExp):
+            return part_of(e.body) and part_of(e.orelse)
+        if isinstance(e, ast.BoolOp):
+            return all(part_of(v) for v in e.values)
+        return False
     for n in ast.walk(fn):
         tgts = val = None
         if isinstance(n, ast.Assign):
@@ -1319,21 +1522,51 @@ def alias_classes(fn):
         elif isinstance(n, ast.withitem) and n.optional_vars is not None:
             tgts, val = [n.optional_vars], n.context_expr
         if tgts is None:
+            if isinstance(n, ast.Call):
+                # an object handed to a method that may keep it: Q.add(t, f, args=(times, S)) / L.append(x) / d.update(e) /
+                # heappush(h, (t, x)).  The receiver then HOLDS the object (directed: the objects held do not hold each
+                # other).  Free functions are trusted not to make one argument hold another (new helpers are inlined, so
+                # their bodies are seen).
+                ch = _chain(n.func) or ""
+                meth = n.func.attr if isinstance(n.func, ast.Attribute) else None
+                args = list(n.args) + [k.value for k in n.keywords]
+                if ch in ("heapq.heappush", "heappush") and len(n.args) == 2:
+                    hold(roots(n.args[0]), roots(n.args[1]))
+                elif meth is not None and ch.split(".")[0] not in ("heapq", "random", "np", "nx", "numpy", "math", "scipy", "EoN"):
+                    keeps = meth in ("add", "append", "insert", "update", "extend", "setdefault", "appendleft", "put", "push", "__setitem__")
+                    known = meth in (PURE_METHODS | IMMUTABLE_METHODS | {"choose_random", "format", "remove", "discard", "pop", "random_removal",
+                                                                      "clear", "sort", "reverse", "get", "items", "values", "keys", "copy"})
+                    if keeps or not known:
+                        hold(roots(n.func.value), [r for a in args for r in roots(a)])
             continue
         rs = roots(val)
+        # `a = b`, `a = b if c else d`, displays: a may BE the object; `a = b[i]`, `a = b.attr`, `a = b.get(k)`, `for a in b`:
+        # a is (at most) a PART of b - b holds a, and what happens to a does not change which object `b[i]` denotes
+        part = isinstance(n, (ast.For, ast.comprehension)) or part_of(val)
         for t in tgts:
             for x in ast.walk(t):
                 if isinstance(x, ast.Name) and isinstance(x.ctx, ast.Store):
-                    for r in rs:
-                        union(x.id, r)
+                    if part:
+                        hold(rs, [x.id])
+                    else:
+                        for r in rs:
+                            union(x.id, r)
+            if isinstance(t, (ast.Subscript, ast.Attribute)):
+                hold(roots(t), rs)          # d[k] = v / obj.a = v: the container now holds v
     classes = {}
     for x in list(parent):
-        classes.setdefault(find(x), set()).add(x)
+        r = find(x)
+        classes.setdefault(r, set()).update((x, r))        # the representative belongs to its class as well
     out = {}
     for c in classes.values():
         fc = frozenset(c)
         for x in c:
             out[x] = fc
+    holds = {}
+    for a, b in held:
+        if a != b:
+            holds.setdefault(a, set()).add(b)
+    out["\0holds"] = holds
     return out
 
 
@@ -1341,17 +1574,75 @@ def _aliased(name):
     return _ALIAS[0].get(name, (name,))
 
 
+def _affected(kind, base, identity=False):
+    """Names whose (deep) value an effect on the object called `base` may change (identity=True: names for which a
+    path read `n[k]` / `n.a` may come to denote a different object - a change of the content of something n merely holds
+    does not do that, so there is no upward step).
+    bind: the name itself.  A shallow effect (a known mutator, a slot store): the names that may denote the object and, upwards,
+    everything that holds it.  An unknown call: in addition everything the object holds, downwards (`Q.pop_and_run()` runs
+    events that write the lists handed to `Q.add`), and the holders of that."""
+    if kind == "bind":
+        return {base}
+    A = _ALIAS[0]
+    holds = A.get("\0holds") or {}
+    if not holds:
+        return set(A.get(base, (base,)))
+
+    def eq(n):
+        return A.get(n, (n,))
+
+    def up(start):
+        out, work = set(start), list(start)
+        while work:
+            n = work.pop()
+            for h, inner in holds.items():
+                if n in inner:
+                    for m in eq(h):
+                        if m not in out:
+                            out.add(m)
+                            work.append(m)
+        return out
+    start = set(eq(base))
+    if kind != "unknown":
+        return start if identity else up(start)
+    down, work = set(start), list(start)
+    while work:
+        n = work.pop()
+        for c in holds.get(n, ()):
+            for m in eq(c):
+                if m not in down:
+                    down.add(m)
+                    work.append(m)
+    return down if identity else up(down)
+
+
+def _affected_writes(st):
+    out = set()
+    for kind, pay in _mutations(st):
+        base = pay if kind in ("bind", "unknown") else pay[0]
+        out |= _affected("bind" if kind == "bind" else ("unknown" if kind == "unknown" else "shallow"), base)
+    return out
+
+
 def _invalidates(muts, e, x):
     """May the effects `muts` change what expression e (bound to name x) evaluates to, or rebind x?"""
+    if _simple_tuple(e):
+        # a display of names denotes the same objects until one of the names is rebound: what happens to the CONTENT of
+        # those objects does not change the tuple
+        ns = _names(e) | {x}
+        # ("unknown" effects are content mutations by calls; only a function with nonlocal / global declarations can
+        # have a name rebound by a call)
+        return any((kind == "bind" and pay in ns) or (kind == "unknown" and _NONLOCAL[0]) for kind, pay in muts)
     if _ALIAS[0]:
         # an effect on an object reached through another name of the same alias class counts as an effect on every name
         # of the class (coarse: any read rooted at an aliased name is taken to be affected)
         en = _names(e)
+        ident = _path(e) is not None      # an alias of an existing object: b, b[i], b.a
         for kind, pay in muts:
             base = pay if kind in ("bind", "unknown") else pay[0]
             if kind == "bind":
                 continue
-            for other in _aliased(base):
+            for other in _affected("unknown" if kind == "unknown" else "shallow", base, identity=ident):
                 if other != base and other in en:
                     return True
     pe = _path(e)
@@ -1523,6 +1814,11 @@ def _total(e):
         if isinstance(n, ast.Call) and isinstance(n.func, ast.Name) and n.func.id in ("len", "bool", "isinstance", "float", "int", "abs") \
                 and not n.keywords:
             continue
+        if isinstance(n, ast.Call) and isinstance(n.func, ast.Name) and n.func.id == "dict" and not n.args \
+                and all(k.arg is not None for k in n.keywords):
+            continue                      # dict(k=v, ...) builds a dict; cannot fail
+        if isinstance(n, ast.keyword):
+            continue
         if isinstance(n, ast.Attribute) and isinstance(n.value, ast.Name):
             continue                      # an attribute of a named object (self.items): present in a type-correct program
         if isinstance(n, ast.Subscript) and isinstance(n.slice, ast.Slice):
@@ -1569,7 +1865,10 @@ def _value_only(scope, x):
             elif isinstance(p, ast.AugAssign):
                 ok = cur is p.value
             elif isinstance(p, ast.keyword):
-                cur = p
+                if p.arg is None:
+                    ok = True                # f(**x): the callee gets a dict of its own
+                else:
+                    cur = p
             elif isinstance(p, ast.Call):
                 if cur is p.func:
                     ok = False
@@ -1701,6 +2000,27 @@ def rename_apart(fn):
                     u.id = nm
 
 
+def _range_indexed(e, owner, fld):
+    """e is X[i] directly in the body of `for i in range(len(X))` whose body neither rebinds i or X nor changes X: the
+    subscript cannot fail, so it may be evaluated under more or fewer conditions."""
+    if not (fld == "body" and isinstance(owner, ast.For) and isinstance(owner.target, ast.Name) and not owner.orelse
+            and isinstance(e, ast.Subscript) and isinstance(e.value, ast.Name) and isinstance(e.slice, ast.Name)
+            and e.slice.id == owner.target.id):
+        return False
+    it = owner.iter
+    if not (isinstance(it, ast.Call) and isinstance(it.func, ast.Name) and it.func.id == "range" and len(it.args) == 1 and not it.keywords
+            and isinstance(it.args[0], ast.Call) and isinstance(it.args[0].func, ast.Name) and it.args[0].func.id == "len"
+            and len(it.args[0].args) == 1 and isinstance(it.args[0].args[0], ast.Name) and it.args[0].args[0].id == e.value.id):
+        return False
+    X, i = e.value.id, e.slice.id
+    for st in owner.body:
+        for kind, pay in _mutations(st):
+            base = pay if kind in ("bind", "unknown") else pay[0]
+            if base in (X, i) or base == "?" or (kind != "bind" and X in _affected("unknown" if kind == "unknown" else "shallow", base)):
+                return False
+    return True
+
+
 def propagate(fn, only_paths=False, only_names=None):
     """Block-local forward substitution of pure definitions `x = e` into the statements that follow in the same block,
     until x is reassigned or something e reads may change; then dead pure stores are removed.
@@ -1722,8 +2042,10 @@ def propagate(fn, only_paths=False, only_names=None):
                 x = st.targets[0].id
                 e = st.value
                 depth = [0]
-                if x in captured or not is_pure(e) or not _value_like(e) or x in _names(e):
+                if x in captured or not is_pure(e) or x in _names(e):
                     continue
+                if not _value_like(e) and not (isinstance(e, ast.Call) and _total(e) and _value_only(scope, x)):
+                    continue            # a freshly built container: only when nothing but its value is ever used (f(**kw))
                 if only_paths and (_path(e) is None or isinstance(e, ast.Name)):
                     continue
                 if only_names is not None and x not in only_names:
@@ -1738,7 +2060,7 @@ def propagate(fn, only_paths=False, only_names=None):
                         continue
                 m = {x: e}
 
-                total = _total(e)
+                total = _total(e) or _range_indexed(e, owner, fld)
                 # evaluated once per iteration instead of once: fine for the same object / a number, and for a freshly built but
                 # equal value whose every use only consumes the value -- never for something that may be a one-shot iterator
                 stable = _immutable_result(e) or (shareable and not any(
@@ -1825,7 +2147,7 @@ def propagate(fn, only_paths=False, only_names=None):
                 if isinstance(st, ast.Assign) and len(st.targets) == 1 and isinstance(st.targets[0], ast.Name) \
                         and st.targets[0].id not in loads and st.targets[0].id not in params and st.targets[0].id not in captured \
                         and is_pure(st.value) and (_total(st.value) or st.targets[0].id.startswith("__")
-                                                   or st.targets[0].id in still_evaluated):
+                                                   or st.targets[0].id in still_evaluated or _range_indexed(st.value, owner, fld)):
                     changed_any = True
                     continue
                 keep.append(st)
@@ -1988,8 +2310,7 @@ def commute(a, b):
     wa, wb = _writes(a), _writes(b)
     if "?" in wa or "?" in wb:
         return False
-    wa = {y for x in wa for y in _aliased(x)}
-    wb = {y for x in wb for y in _aliased(x)}
+    wa, wb = _affected_writes(a), _affected_writes(b)
     return not (wa & (_names(b) | wb) or wb & _names(a))
 
 
@@ -2008,7 +2329,7 @@ def sort_commuting(fn):
                                               ast.Import, ast.ImportFrom, ast.Global, ast.Nonlocal, ast.Pass, ast.Try, ast.With)) \
                     and not any(isinstance(n, (ast.Return, ast.Raise, ast.Break, ast.Continue, ast.Yield, ast.YieldFrom, ast.Await))
                                 for n in ast.walk(st))
-                info[k] = (movable, _writes(st), _names(st), _impure(st), _blind_key(st))
+                info[k] = (movable, _writes(st), _names(st), _impure(st), _blind_key(st), _affected_writes(st))
             return info[k]
         changed = True
         rounds = 0
@@ -2017,14 +2338,12 @@ def sort_commuting(fn):
             rounds += 1
             for i in range(len(body) - 1):
                 a, b = body[i], body[i + 1]
-                ma, wa, ra, ia, ka = inf(a)
-                mb, wb, rb, ib, kb = inf(b)
+                ma, wa, ra, ia, ka, wa2 = inf(a)
+                mb, wb, rb, ib, kb, wb2 = inf(b)
                 if not (ma and mb) or (ia and ib):
                     continue
                 if "?" in wa or "?" in wb:
                     continue
-                wa2 = {y for x in wa for y in _aliased(x)}
-                wb2 = {y for x in wb for y in _aliased(x)}
                 if wa2 & (rb | wb2) or wb2 & ra:
                     continue
                 if kb < ka:
@@ -2282,8 +2601,8 @@ def _independent(comp, body, target):
     ra, wa = a
     rb, wb = b
     tn = _names(target)
-    wa = {y for x in wa for y in _aliased(x)}
-    wb = {y for x in wb for y in _aliased(x)} - tn
+    wa = {y for x in wa for y in _affected("unknown", x)}
+    wb = {y for x in wb for y in _affected("unknown", x)} - tn
     return not (wa & (rb | wb)) and not (wb & ra)
 
 
@@ -2524,8 +2843,8 @@ def fuse_list_loops(fn):
                 ra, wa = a
                 rb, wb = b
                 tn = _names(C.target)
-                wa = {q for x in wa for q in _aliased(x)} - {L}
-                wb = {q for x in wb for q in _aliased(x)} - tn
+                wa = {q for x in wa for q in _affected("unknown", x)} - {L}
+                wb = {q for x in wb for q in _affected("unknown", x)} - tn
                 if wa & (rb | wb) or wb & (ra - {L}):
                     continue
                 b2[k:k + 1] = [ast.Assign(targets=[C.target], value=y.value.args[0])] + C.body
@@ -2902,6 +3221,10 @@ def expand_star_tuples(fn):
                     if not body:
                         body.append(ast.Pass())
     class TC(ast.NodeTransformer):
+        def visit_Subscript(self, n):
+            self.generic_visit(n)
+            return _project_tuple(n)
+
         def visit_BinOp(self, n):
             self.generic_visit(n)
             if isinstance(n.op, ast.Add) and isinstance(n.left, ast.Tuple) and isinstance(n.right, ast.Tuple):
@@ -3016,6 +3339,7 @@ class _Dunder(ast.NodeTransformer):
 def canonical(fn, helpers, sigs=None, cls=None):
     SIGNATURES[0] = sigs or {}
     f = copy.deepcopy(fn)
+    _NONLOCAL[0] = any(isinstance(n, (ast.Nonlocal, ast.Global)) for n in ast.walk(f))
     strip(f)
     if cls is not None and f.name not in ("__len__", "__contains__", "__bool__"):
         _Dunder(cls).visit(f)
@@ -3104,6 +3428,11 @@ def inlined_only(fn, helpers, ref_fn=None):
                 break
     finally:
         _ALIAS[0] = {}
+    # `flag = bool(x)` written out leaves `if bool(x):`, which is `if x:`
+    for n in ast.walk(f):
+        if isinstance(n, (ast.If, ast.While, ast.IfExp)) and isinstance(n.test, ast.Call) and isinstance(n.test.func, ast.Name) \
+                and n.test.func.id == "bool" and len(n.test.args) == 1 and not n.test.keywords and not isinstance(n.test.args[0], ast.Starred):
+            n.test = n.test.args[0]
     if ast.dump(f) == before:
         return None
     ast.fix_missing_locations(f)
